@@ -1,7 +1,7 @@
 (* Correspondence obligations for C11: the model's outputs on the inputs the implementation ran.
    Each `*_mismatches` returns the indices of the cases on which the model and the observation differ. *)
 From Coq Require Import ZArith NArith Bool List.
-From PcoreV Require Import Model.Base Model.Json Model.Pb Model.PbMem.
+From PcoreV Require Import Model.Base Model.Json Model.Pb Model.PbMem Model.JsonSer.
 Import ListNotations.
 Open Scope Z_scope.
 
@@ -78,3 +78,10 @@ Definition pb_check (c : pcase) : bool :=
       end
   end.
 Definition pb_mismatches (cs : list pcase) : list N := failing pb_check cs.
+
+(* ---- the Serializer's calls: (options + capabilities of the consumer, value, the calls the consumer received) *)
+Inductive sercase := SE (c : scfg) (v : sval) (evs : list ev).
+(* serialization/serializer.go: Convert/toData/process/nonStringKeyedHashToData/toKeyExtendedHash/unknownToStringWithWarning *)
+Definition ser_check (x : sercase) : bool :=
+  match x with SE c v evs => evs_eqb [ser_top c v] evs end.
+Definition ser_mismatches (cs : list sercase) : list N := failing ser_check cs.
